@@ -587,3 +587,24 @@ def pit_fill_threading(ctx):
     part = {"create_pit_node_entries": "node", "create_pit_branch_entries": "branch", "create_component_array": "components"}
     ctx.decided("every-component-fills-the-one-pit", "ensures",
                 all(a[0] is net and a[1] is pit[part[t]] for t, c, a in log if t in part), witness="a component received another array")
+
+
+@unit("C06", "pit/empty_pit", functions=[PS + ":create_empty_pit"], engine="E1")
+def empty_pit(ctx):
+    """the pit allocated for a calculation has exactly as many node / branch rows as the lookups hand out positions
+    (node_length / branch_length of create_lookups) and the column counts of idx_node / idx_branch; it is stored as net['_pit']"""
+    ctx.assume("A4", "A6", "A7")
+    nl, bl = z3.Int("node_length"), z3.Int("branch_length")
+    net = K.NetObj({"_lookups": {"node_length": nl, "branch_length": bl}})
+    paths = T.run_paths(ctx, PS + ":create_empty_pit", lambda: ([net], {}))
+    ok = len(paths) == 1 and paths[0].exc is None and isinstance(paths[0].result, dict)
+    ctx.decided("single-path", "cover", ok, witness=str([str(p.exc) for p in paths]))
+    if not ok:
+        return
+    pit = paths[0].result
+    ctx.decided("stored-as-the-net's-pit", "ensures", paths[0].args[0][0].items.get("_pit") is pit, witness="returned pit is not net['_pit']")
+    ctx.decided("parts", "ensures", set(pit) == {"node", "branch", "components"} and pit["components"] == {}, witness=str(sorted(pit)))
+    for part, n_, nc in (("node", nl, NCN), ("branch", bl, NCB)):
+        a = pit.get(part)
+        ctx.decided("%s/shape" % part, "ensures", isinstance(a, Pit) and same_term(a.n, n_) and a.ncols == nc,
+                    witness="%r rows %r cols %r" % (a, getattr(a, "n", None), getattr(a, "ncols", None)))
